@@ -499,6 +499,10 @@ def run(prog, rep):
                   "%s tests the truthiness of the search result %s: an empty Section (no children, no Properties) counts as not found"
                   % (fn.name, [t for _, t in bad]), where(fn, bad[0][0]) if bad else fn.where,
                   witness="find_related() misses a matching Section that has neither sub-Sections nor Properties")
+    from .rules_lints import getters_store_nothing, strip_with_variable
+    getters_store_nothing(prog, rep, "GET-2", ("Sectionable", "BaseSection", "BaseProperty", "BaseDocument"),
+                          "`document`, `parent`, paths and child lists are read off the tree as it is now; look-ups by absolute path start at `document`")
+    strip_with_variable(prog, rep, "STRIP-1", ("odml.base", "odml.section"))
     rep.assume("names are unique among siblings (C04), so the first match is the only one")
     rep.extra["evaluations"] = len(rep.items)
 
